@@ -9,7 +9,7 @@ import ast
 from leanlit import *
 
 TARGET = 'Mmap'
-SOURCES = ['prometheus_client/mmap_dict.py']
+SOURCES = ['prometheus_client/mmap_dict.py', 'prometheus_client/multiprocess.py']
 
 STRUCT_WIDTH = {'i': 4, 'd': 8}     # native sizes of the two struct codes the module uses (trusted: CPython struct, x86-64/aarch64)
 
@@ -26,7 +26,8 @@ DEFAULTS = dict(initialMmapSize=0, intFmt='', twoDoublesFmt='', intWidth=0, twoD
                 readerExpr='(0 : Int)', writerExpr='(0 : Int)', padByte=0, scanStart=0, lenFieldSkip=0, valueSkip=0, headerPos=0,
                 freshUsed=0, growFactor=0, positionBack=0, growKind='absent', ctorEffects=[], initValueEffects=[],
                 growBody=[], writeValueEffects=[], packIntegerSlice=0, packTwoDoublesSlice=0, readerUsesHeaderBound=False,
-                shortFileGuard=None, entryPacksDoubles=True, entryReserve=0)
+                shortFileGuard=None, entryPacksDoubles=True, entryReserve=0,
+                vanishCaught='', vanishTyp='', vanishModePrefix='', vanishReraises=False, removeTyp='', removeModePrefix='')
 
 
 class IntExpr:
@@ -149,6 +150,13 @@ def _emit(ok, v, why=''):
     out += 'def readerUsesHeaderBound : Bool := %s\n' % ('true' if v['readerUsesHeaderBound'] else 'false')
     out += '/-- `if len(data) < N: return iter(())` before the header is unpacked in `read_all_values_from_file` (none = no such guard) -/\n'
     out += 'def shortFileGuard : Option Nat := %s\n' % ('none' if v['shortFileGuard'] is None else 'some %d' % v['shortFileGuard'])
+    out += '/-- `_read_metrics`: `except <vanishCaught>: if typ == <vanishTyp> and parts[1].startswith(<vanishModePrefix>): continue; raise` -/\n'
+    for k in ('vanishCaught', 'vanishTyp', 'vanishModePrefix'):
+        out += 'def %s : List Char := %s\n' % (k, chars(v[k]))
+    out += 'def vanishReraises : Bool := %s\n' % ('true' if v['vanishReraises'] else 'false')
+    out += '/-- `mark_process_dead` removes `<removeTyp>_{mode}_{pid}.db` for the modes that start with <removeModePrefix> -/\n'
+    for k in ('removeTyp', 'removeModePrefix'):
+        out += 'def %s : List Char := %s\n' % (k, chars(v[k]))
     out += '/-- does `_init_value` pack the two zero doubles into the entry it writes (false: it writes length, key and padding only and\n'
     out += 'counts `entryReserve` further bytes as used without writing them) -/\n'
     out += 'def entryPacksDoubles : Bool := %s\n' % ('true' if v['entryPacksDoubles'] else 'false')
@@ -223,6 +231,49 @@ def generate(repo):
         if kinds == ['read', 'header', 'rest']: v['shortFileGuard'] = None
         elif kinds != ['read', 'guard', 'header', 'rest']: raise Fail('read_all_values_from_file: statement order %s' % kinds)
         if ast.unparse(ff.body[-1]) != 'return _read_all_values(data, used)': raise Fail('read_all_values_from_file: final return changed')
+
+        # ---- collector: files that vanish between listing and reading (multiprocess._read_metrics), and who removes files
+        mp = parse(repo, SOURCES[1])
+        rm = find_func(mp, '_read_metrics', 'MultiProcessCollector')
+        loops = [n for n in rm.body if isinstance(n, ast.For) and ast.unparse(n.iter) == 'files']
+        if len(loops) != 1: raise Fail('_read_metrics: `for f in files` not found')
+        if not any(ast.unparse(st) == "parts = os.path.basename(f).split('_')" for st in loops[0].body) or \
+           not any(ast.unparse(st) == 'typ = parts[0]' for st in loops[0].body):
+            raise Fail('_read_metrics: file name is not split into parts / typ = parts[0]')
+        trys = [n for n in loops[0].body if isinstance(n, ast.Try)]
+        if len(trys) != 1 or len(trys[0].body) != 1 or ast.unparse(trys[0].body[0]) != 'file_values = MmapedDict.read_all_values_from_file(f)':
+            raise Fail('_read_metrics: try around read_all_values_from_file not found')
+        hs = trys[0].handlers
+        if len(hs) != 1 or hs[0].type is None or trys[0].orelse or trys[0].finalbody:
+            raise Fail('_read_metrics: exactly one except clause expected')
+        v['vanishCaught'] = ast.unparse(hs[0].type)
+        hb = hs[0].body
+        if not (len(hb) == 2 and isinstance(hb[0], ast.If) and not hb[0].orelse and isinstance(hb[1], ast.Raise) and hb[1].exc is None
+                and [type(x) for x in hb[0].body if not isinstance(x, ast.Expr)] == [ast.Continue]):
+            raise Fail('_read_metrics: handler is not `if …: continue; raise`')
+        t = hb[0].test
+        if not (isinstance(t, ast.BoolOp) and isinstance(t.op, ast.And) and len(t.values) == 2
+                and isinstance(t.values[0], ast.Compare) and ast.unparse(t.values[0].left) == 'typ' and isinstance(t.values[0].ops[0], ast.Eq)
+                and isinstance(t.values[1], ast.Call) and ast.unparse(t.values[1].func) == 'parts[1].startswith'):
+            raise Fail('_read_metrics: tolerance test changed: %s' % ast.unparse(t))
+        v['vanishTyp'] = const(t.values[0].comparators[0], str)
+        v['vanishModePrefix'] = const(t.values[1].args[0], str)
+        v['vanishReraises'] = True
+        md_ = find_func(mp, 'mark_process_dead')
+        rms = [c for c in calls_in(md_) if ast.unparse(c.func) == 'os.remove']
+        fl = [n for n in ast.walk(md_) if isinstance(n, ast.For) and ast.unparse(n.iter) == '_LIVE_GAUGE_MULTIPROCESS_MODES']
+        if len(rms) != 1 or len(fl) != 1: raise Fail('mark_process_dead: one os.remove under `for mode in _LIVE_GAUGE_MULTIPROCESS_MODES` expected')
+        js = [n for n in ast.walk(md_) if isinstance(n, ast.JoinedStr)]
+        if len(js) != 1 or ast.unparse(js[0]) != "f'gauge_{mode}_{pid}.db'":
+            if len(js) != 1 or not (isinstance(js[0].values[0], ast.Constant) and js[0].values[0].value.endswith('_')
+                                    and ast.unparse(js[0].values[1].value) == 'mode'):
+                raise Fail('mark_process_dead: removal pattern changed')
+        v['removeTyp'] = js[0].values[0].value[:-1]
+        lm = find_assign(mp, '_LIVE_GAUGE_MULTIPROCESS_MODES')
+        if not (isinstance(lm, ast.SetComp) and len(lm.generators) == 1 and len(lm.generators[0].ifs) == 1
+                and isinstance(lm.generators[0].ifs[0], ast.Call) and ast.unparse(lm.generators[0].ifs[0].func) == 'm.startswith'):
+            raise Fail('_LIVE_GAUGE_MULTIPROCESS_MODES is not {m for m in … if m.startswith(P)}')
+        v['removeModePrefix'] = const(lm.generators[0].ifs[0].args[0], str)
 
         # ---- writer: _init_value
         iv = find_func(tree, '_init_value', 'MmapedDict')
